@@ -19,6 +19,9 @@ pub struct IsoPool<F> {
     pub small_order: Vec<Vec<Pt<F>>>,
     /// G1 only: points of order 121 on E1' (cyclic 11-Sylow): [11]S is a rational kernel point
     pub order121: Vec<Pt<F>>,
+    /// points of E' with structure a guard might test for: the points E' has in common with the TARGET curve
+    /// (A'x + B' = b), x with A'x + B' = 0, x in {0, +-1, +-2, 3, ...} (where such points exist)
+    pub structured: Vec<(String, Pt<F>)>,
 }
 
 const NFULL: usize = 24;
@@ -49,7 +52,25 @@ where
             }
         }
     }
-    IsoPool { full, small_order, order121 }
+    let mut structured = vec![];
+    let tb = G::curve().b.clone();
+    let ainv = curve.a.inv().unwrap();
+    let mut xs: Vec<(String, G::F)> = vec![
+        ("point-on-both-curves (A'x+B'=b)".to_string(), tb.sub(&curve.b).mul(&ainv)),
+        ("x=-B'/A'".to_string(), curve.b.neg().mul(&ainv)),
+        ("x=0".to_string(), <G::F as Fld>::zero()),
+    ];
+    for k in 1..=6u64 {
+        xs.push((format!("x={}", k), <G::F as Fld>::from_u64(k)));
+        xs.push((format!("x=-{}", k), <G::F as Fld>::from_u64(k).neg()));
+    }
+    for (name, x) in xs {
+        if let Some(y) = curve.rhs(&x).sqrt() {
+            structured.push((name.clone(), Pt::Aff(x.clone(), y.clone())));
+            structured.push((name, Pt::Aff(x, y.neg())));
+        }
+    }
+    IsoPool { full, small_order, order121, structured }
 }
 
 static IPOOL1: OnceLock<IsoPool<Fq>> = OnceLock::new();
@@ -110,6 +131,8 @@ pub enum IsoPtR {
     Kernel(u8, u8),
     /// the SSWU image of a field element: the inputs the isogeny sees in practice
     Sswu(Fq2R),
+    /// a point of E' with structured x (incl. the points E' shares with the target curve)
+    Structured(u8),
     Neg(Box<IsoPtR>),
     /// model sum on E'
     Sum(Box<IsoPtR>, Box<IsoPtR>),
@@ -145,6 +168,13 @@ impl IsoPtR {
                 }
             }
             IsoPtR::Sswu(u) => G::sswu_image(&u.build()),
+            IsoPtR::Structured(i) => {
+                if pool.structured.is_empty() {
+                    pool.full[*i as usize % NFULL].clone()
+                } else {
+                    pool.structured[*i as usize % pool.structured.len()].1.clone()
+                }
+            }
             IsoPtR::Neg(p) => c.neg(&p.build::<G>()),
             IsoPtR::Sum(a, b) => c.add(&a.build::<G>(), &b.build::<G>()),
         }
@@ -157,6 +187,7 @@ impl IsoPtR {
             IsoPtR::Order121(_) => "order-121 (G1)",
             IsoPtR::Kernel(_, _) => "rational-kernel-point (G1)",
             IsoPtR::Sswu(_) => "sswu-image",
+            IsoPtR::Structured(_) => "structured-x (incl. points shared with the target curve)",
             IsoPtR::Neg(_) => "negated",
             IsoPtR::Sum(_, _) => "model-sum",
         }
@@ -171,6 +202,7 @@ fn iso_leaf() -> BoxedStrategy<IsoPtR> {
         2 => (0u8..3).prop_map(IsoPtR::Order121),
         2 => (0u8..3, 0u8..10).prop_map(|(i, k)| IsoPtR::Kernel(i, k)),
         5 => fq2_strategy().prop_map(IsoPtR::Sswu),
+        3 => any::<u8>().prop_map(IsoPtR::Structured),
     ]
     .boxed()
 }
